@@ -18,7 +18,7 @@ EXPLANATION = (
     "errors set the error flag and continue; (FLAG) only set_errored writes ERRORED, process::exit and raw stderr "
     "writes are confined to the message macros, err_message! sets the flag before printing; (CONFIG) matcher / "
     "searcher / walker construction errors are propagated before the first search. That every failing syscall "
-    "becomes an Err in the libraries, and promptness, are not decided. In the parallel worker has_match() is consulted, and the shared flag set, on every path from a successful search to the closure's return (including the broken-pipe Quit).")
+    "becomes an Err in the libraries, and promptness, are not decided. (CHILD) a failing --pre / -z command is an Err of SearchWorker::search: close() runs after the search on every path and its error is the answer. In the parallel worker has_match() is consulted, and the shared flag set, on every path from a successful search to the closure's return (including the broken-pipe Quit).")
 NOT_DECIDED = ["that every failing syscall is turned into an Err by the libraries", "promptness after the pipe closes"]
 
 KIND = "std::io::error::Error::kind"
@@ -830,6 +830,58 @@ def flush_rule(ctx, r):
             r.bad("flush|files_parallel", "the printing thread of files_parallel ends without flushing the writer it owns", fn=g,
                   construct="flush")
 
+def child_rule(ctx, r):
+    """A failed --pre / -z command must end as an Err of SearchWorker::search, the only thing the drivers turn into the error
+    flag (C15.CONTINUE): close() runs on every path after the search and its Err is the function's answer; the dispatch in
+    SearchWorker::search hands each helper's Err on. Value tables over the MIR, so `?`, match and combinators read alike."""
+    from ..flow import table, ret_set
+    from .c18 import SW, CR, CRB, DR, DRB
+    facts = ctx.facts
+    for name, build, close in (("search_preprocessor", CRB + "::build", CR + "::close"),
+                               ("search_decompress", DRB + "::build", DR + "::close")):
+        f = facts.fn(SW + "::" + name)
+        if f is None:
+            r.bad(name + "|shape", "anchor-missing: " + name); continue
+        cl = f.calls_to(close)
+        sr = f.calls_to(SW + "::search_reader")
+        if not sr or len(cl) != 1 or not f.calls_to(build):
+            r.bad(name + "|close", "%s no longer asks the child for its exit status (close %d call(s)): a command that fails after the "
+                  "search stopped reading is reported through nothing but the log, so the error flag stays clear and rg exits 0/1 instead of 2"
+                  % (name, len(cl)), fn=f, construct="close")
+            continue
+        bad = []
+        for row, sx in table(facts, f, calls={"SearchWorker::search_reader": [V("Ok", I(7)), V("Err", None)],
+                                              close.split("::", 1)[1]: [V("Err", None)],
+                                              build.split("::", 1)[1]: [V("Ok", None)]}):
+            sv = row[("call", "SearchWorker::search_reader")][1]
+            kinds = {("?" if v is None else v[1]) for v in ret_set(sx)}
+            if not any(c.bb in sx.exec_blocks for c in cl):
+                bad.append("search %s: close() not reached" % sv)
+            elif kinds != {"Err"}:
+                bad.append("search %s, close Err: answers %s" % (sv, sorted(kinds)))
+        if bad:
+            r.bad(name + "|close", "a failing child command does not become an error of %s (%s), so the exit status stays 0/1" % (name, "; ".join(bad)),
+                  fn=f, loc=cl[0].loc, construct="close")
+        else:
+            r.ok(name + "|close", "a failing child command is an Err of %s whatever the search said" % name, fn=f)
+    f = facts.fn(SEARCH)
+    if f is None:
+        r.bad("dispatch|shape", "anchor-missing: SearchWorker::search"); return
+    for n in ("search_preprocessor", "search_decompress", "search_path", "search_reader"):
+        cs = f.calls_to(SW + "::" + n)
+        if not cs:
+            r.bad("dispatch|" + n, "anchor-missing: SearchWorker::search no longer calls " + n, fn=f); continue
+        for i, c in enumerate(cs):
+            s = seed_after_call(f, c, V("Err", None))
+            kinds = {("?" if v is None else v[1]) for v in ret_set(s)}
+            key = "dispatch|" + n + ("" if len(cs) == 1 else "|%d" % i)
+            if kinds == {"Err"}:
+                r.ok(key, "an Err of %s is the answer of SearchWorker::search" % n, fn=f, nontrivial=False)
+            else:
+                r.bad(key, "SearchWorker::search can answer %s after %s failed: the drivers would not set the error flag" % (sorted(kinds), n),
+                      fn=f, loc=c.loc, construct="dispatch")
+
+
 def run(ctx):
     with ctx.rule("C15.STATUS", "exit-code truth table of rg::run (8 rows, exhaustive) and rg::main's Err mapping",
                   floor=10, exhaustive=True, kind="TRUTH") as r:
@@ -843,6 +895,9 @@ def run(ctx):
         flush_rule(ctx, r)
     with ctx.rule("C15.CONTINUE", "per-file errors set the error flag and continue", floor=3, kind="A3/MAYCALL") as r:
         continue_rule(ctx, r)
+    with ctx.rule("C15.CHILD", "a failing --pre / -z command ends as an Err of SearchWorker::search (which the drivers turn into the error flag)",
+                  floor=6, kind="PASS/USED") as r:
+        child_rule(ctx, r)
     with ctx.rule("C15.FLAG", "ERRORED ownership; process::exit and stderr confined to the macros; err_message! order",
                   floor=8, kind="MAYCALL/DOM") as r:
         flag_rule(ctx, r)
